@@ -8,7 +8,45 @@ use star_test_utils::AggregationServer;
 
 pub const EPOCHS: &[&str] = &["", "e", "epoch-1", "épocas", "日本", "a\"b", "back\\slash", "two words", "q\"\\\"", "2026-09", "ünï\u{1F600}", "epoch-7\n", " 2024-09-28", "t ", "\t", "\u{feff}e"];
 
+/// machine-size epoch lengths in UTF-8 bytes (fixed buffers, length bytes, hash block sizes)
+pub const EPOCH_LENS: &[usize] = &[63, 64, 65, 127, 128, 129, 135, 136, 137, 166, 255, 256, 257, 1024, 4096];
+
+/// a long epoch of exactly `n` UTF-8 bytes: ASCII, or with multi-byte characters mixed in
+pub fn long_epoch(g: &mut Sm, n: usize) -> String {
+  let mut e = String::new();
+  let multi = g.chance(1, 3);
+  while e.len() < n {
+    let left = n - e.len();
+    if multi && left >= 3 && g.chance(1, 4) {
+      e.push(*g.pick(&['日', '€']));
+    } else if multi && left >= 2 && g.chance(1, 4) {
+      e.push('é');
+    } else {
+      e.push((b'a' + g.below(26) as u8) as char);
+    }
+  }
+  e
+}
+
+/// epochs RELATED to `e`: extended by one or many bytes, cut by one byte, cut at a machine-size
+/// length; never equal to `e` (None when no such epoch exists)
+pub fn related_epoch(g: &mut Sm, e: &str) -> Option<String> {
+  let cut = |n: usize| -> Option<String> { if n < e.len() && e.is_char_boundary(n) { Some(e[..n].to_string()) } else { None } };
+  let r = match g.below(4) {
+    0 => Some(format!("{}x", e)),
+    1 => Some(format!("{}{}", e, long_epoch(g, 200))),
+    2 => if e.is_empty() { None } else { let mut n = e.len() - 1; while !e.is_char_boundary(n) { n -= 1; } cut(n) },
+    _ => EPOCH_LENS.iter().rev().find_map(|&n| cut(n)),
+  };
+  r.filter(|x| x != e)
+}
+
 pub fn gen_epoch(g: &mut Sm) -> String {
+  if g.chance(1, 7) {
+    stat("epoch.machine_size_length");
+    let n = *g.pick(EPOCH_LENS);
+    return long_epoch(g, n);
+  }
   if g.chance(3, 4) {
     g.pick(EPOCHS).to_string()
   } else {
